@@ -42,6 +42,11 @@ type Environment struct {
 	// removing it on exit.
 	local []map[string]object.Object
 
+	// frames holds, for every function-call in progress, the number
+	// of scopes which were open when it started.  The scopes below
+	// that belong to its callers, and cannot be seen from inside it.
+	frames []int
+
 	// functions holds golang function pointers, as set by
 	// by the host-application.
 	//
@@ -152,8 +157,10 @@ func (e *Environment) isLocal(name string) (object.Object, bool) {
 	//
 	// We MUST look at the most-recent scopes before the older ones.
 	//
+	// And we must not look past the scope of the function-call that
+	// is in progress: the local variables of a caller are its own.
 	ln := len(e.local)
-	for ln > 0 {
+	for ln > e.base() {
 		cur := e.local[ln-1]
 		obj, ok := cur[name]
 		if ok {
@@ -213,6 +220,7 @@ func (e *Environment) RemoveScope() error {
 
 		// Remove the last entry and we're done
 		e.local = e.local[:len(e.local)-1]
+		e.trimFrames()
 		return nil
 	}
 
@@ -231,7 +239,7 @@ func (e *Environment) SetLocal(name string, val object.Object) object.Object {
 		// the scope in which it occurs.
 		//
 		ln := len(e.local)
-		for ln > 0 {
+		for ln > e.base() {
 			cur := e.local[ln-1]
 			_, ok := cur[name]
 			if ok {
@@ -274,6 +282,33 @@ func (e *Environment) Depth() int {
 func (e *Environment) Truncate(depth int) {
 	if depth >= 0 && depth < len(e.local) {
 		e.local = e.local[:depth]
+	}
+	e.trimFrames()
+}
+
+// AddFrame opens the scope of a function-call.  It is a new scope, as
+// AddScope creates, which additionally hides the local variables of the
+// callers: inside the call a name is local only if the function itself
+// (its parameters, its `local` declarations, its loops) made it so, and
+// everything else is global.
+func (e *Environment) AddFrame() {
+	e.frames = append(e.frames, len(e.local))
+	e.AddScope()
+}
+
+// base returns the index of the first scope which belongs to the
+// function-call in progress (zero outside any function).
+func (e *Environment) base() int {
+	if n := len(e.frames); n > 0 {
+		return e.frames[n-1]
+	}
+	return 0
+}
+
+// trimFrames forgets the function-calls whose scopes have been closed.
+func (e *Environment) trimFrames() {
+	for len(e.frames) > 0 && e.frames[len(e.frames)-1] >= len(e.local) {
+		e.frames = e.frames[:len(e.frames)-1]
 	}
 }
 
